@@ -187,6 +187,9 @@ pub struct Config {
     pub ignore_internal: bool,
     pub coster: u8,
     pub validator: u8,
+    /// call the type-changing setters (key builder, coster, validator, callback, hasher) after the
+    /// plain ones instead of before: the builder must carry every field across them
+    pub late_setters: bool,
 }
 
 pub struct Rig {
@@ -201,18 +204,33 @@ pub struct Rig {
 pub fn build(cfg: &Config) -> Result<Rig, CacheError> {
     verif::set_parked(true);
     let cb = RecCallback::default();
-    let r = CacheBuilder::<u64, u64>::new(cfg.num_counters, cfg.max_cost)
-        .set_key_builder(SplitKeyBuilder)
-        .set_coster(TableCoster(cfg.coster))
-        .set_update_validator(TableValidator(cfg.validator))
-        .set_callback(cb.clone())
-        .set_hasher(DetHasher::default())
-        .set_buffer_size(cfg.buf_size)
-        .set_buffer_items(cfg.buf_items)
-        .set_metrics(cfg.metrics)
-        .set_ignore_internal_cost(cfg.ignore_internal)
-        .set_cleanup_duration(Duration::from_secs(3600))
-        .finalize();
+    let r = if cfg.late_setters {
+        CacheBuilder::<u64, u64>::new(cfg.num_counters, cfg.max_cost)
+            .set_buffer_size(cfg.buf_size)
+            .set_buffer_items(cfg.buf_items)
+            .set_metrics(cfg.metrics)
+            .set_ignore_internal_cost(cfg.ignore_internal)
+            .set_cleanup_duration(Duration::from_secs(3600))
+            .set_hasher(DetHasher::default())
+            .set_key_builder(SplitKeyBuilder)
+            .set_coster(TableCoster(cfg.coster))
+            .set_update_validator(TableValidator(cfg.validator))
+            .set_callback(cb.clone())
+            .finalize()
+    } else {
+        CacheBuilder::<u64, u64>::new(cfg.num_counters, cfg.max_cost)
+            .set_key_builder(SplitKeyBuilder)
+            .set_coster(TableCoster(cfg.coster))
+            .set_update_validator(TableValidator(cfg.validator))
+            .set_callback(cb.clone())
+            .set_hasher(DetHasher::default())
+            .set_buffer_size(cfg.buf_size)
+            .set_buffer_items(cfg.buf_items)
+            .set_metrics(cfg.metrics)
+            .set_ignore_internal_cost(cfg.ignore_internal)
+            .set_cleanup_duration(Duration::from_secs(3600))
+            .finalize()
+    };
     let out = r.map(|cache| {
         let proc_ = TProc::take().expect("parked cache processor");
         let worker = ParkedPolicyWorker::<DetHasher>::take().expect("parked policy worker");
@@ -273,7 +291,7 @@ impl Rig {
     pub fn init_line(&self, maxcost: i64) -> String {
         let (bufcap, pqcap) = verif::cache_queue_caps(&self.cache);
         format!(
-            "c.init itemsize={} ignore={} bufcap={} ringcap={} pqcap={} metrics={} max={} samples=5 validator={} coster={} counters={}",
+            "c.init itemsize={} ignore={} bufcap={} ringcap={} pqcap={} metrics={} max={} samples=5 validator={} coster={} counters={} cfgbuf={} late={}",
             verif::cache_item_size(&self.cache),
             self.cfg.ignore_internal as u8,
             bufcap.unwrap_or(0),
@@ -283,7 +301,9 @@ impl Rig {
             maxcost,
             self.cfg.validator,
             self.cfg.coster,
-            self.cfg.num_counters
+            self.cfg.num_counters,
+            self.cfg.buf_size,
+            self.cfg.late_setters as u8
         )
     }
 }
@@ -860,6 +880,7 @@ pub fn sweep_config(rng: &mut Rng, i: usize) -> Config {
         ignore_internal: rng.chance(1, 2),
         coster: rng.below(2) as u8,
         validator: 0,
+        late_setters: rng.chance(1, 2),
     }
 }
 
@@ -896,6 +917,7 @@ pub fn random_config(rng: &mut Rng) -> Config {
         ignore_internal: rng.chance(1, 2),
         coster: rng.below(2) as u8,
         validator: *rng.pick(&[0u8, 0, 0, 1, 2, 3]),
+        late_setters: rng.chance(1, 2),
     }
 }
 
@@ -905,6 +927,13 @@ pub fn cache_life(out: &mut Out, rng: &mut Rng, cfg: &Config, g: &GenOpts) {
         Ok(r) => r,
         Err(e) => {
             out.line(&format!("# cache config rejected: {:?} {}", cfg, e));
+            let ans = match e {
+                CacheError::InvalidNumCounters => "InvalidNumCounters".to_string(),
+                CacheError::InvalidMaxCost => "InvalidMaxCost".to_string(),
+                CacheError::InvalidBufferSize => "InvalidBufferSize".to_string(),
+                other => format!("other:{}", other).replace(' ', "_"),
+            };
+            out.line(&format!("f.config counters={} max={} buf={} | ret={}", cfg.num_counters, cfg.max_cost, cfg.buf_size, ans));
             return;
         }
     };
@@ -1042,6 +1071,19 @@ pub fn cache_life(out: &mut Out, rng: &mut Rng, cfg: &Config, g: &GenOpts) {
             }
             continue;
         }
+        // estimator after clear(): a key is looked up often, the lookups are applied, the cache is
+        // cleared, and the key is inserted again: the estimator must be that of a fresh cache (C11, C13)
+        if !closed && rng.chance(1, 60) {
+            for _ in 0..rng.range(3, 6) {
+                s.get(idx, conf);
+            }
+            while s.worker_items() {}
+            s.clear();
+            s.drain();
+            s.insert(idx, conf, 1, 0, false);
+            s.drain();
+            continue;
+        }
         // TTL switch on one key: a re-insert changes TTL <-> no TTL (or the cost), the old deadline
         // passes, and the key is looked up at quiescence (C03, C04, C05, C16 scenarios)
         if !closed && g.w_ttl > 0 && rng.chance(1, 40) {
@@ -1162,12 +1204,13 @@ pub fn replay_script(out: &mut Out, script: &str) {
         let cfg = Config {
             num_counters: num("counters", 64) as usize,
             max_cost: num("max", 100),
-            buf_size: num("bufcap", 4) as usize,
+            buf_size: num("cfgbuf", num("bufcap", 4)) as usize,
             buf_items: num("ringcap", 64) as usize,
             metrics: num("metrics", 1) == 1,
             ignore_internal: num("ignore", 0) == 1,
             coster: num("coster", 0) as u8,
             validator: num("validator", 0) as u8,
+            late_setters: num("late", 0) == 1,
         };
         let rig = match build(&cfg) {
             Ok(r) => r,
